@@ -111,6 +111,24 @@ def _exc_outcome(spec, env, e, c):
         c.check(as_bool_term(g), 'raises:%s/%s' % (type(e).__name__, tag))
 
 
+def _names_model_class(msg):
+    """does an interpreter error message quote the name of a class defined under /verif (a proxy or model class)?"""
+    import re
+    import sys
+    quoted = set(re.findall(r"'([A-Za-z_][A-Za-z0-9_]*)'", msg))
+    if not quoted:
+        return False
+    root = os.path.dirname(os.path.dirname(os.path.abspath(__file__)))
+    for m in list(sys.modules.values()):
+        f = getattr(m, '__file__', None) or ''
+        if not f.startswith(root):
+            continue
+        for n in quoted:
+            if isinstance(getattr(m, n, None), type):
+                return True
+    return False
+
+
 def verify(spec):
     """Run the symbolic exploration of one function against its contract and discharge all obligations."""
     res = FunctionResult(spec)
@@ -165,6 +183,11 @@ def verify(spec):
                     # a member of a *model* class that the sidecar does not define: never reported as a violation
                     raise OutOfSubset('%s: %s (the code uses a member the sidecar model does not know)'
                                       % (spec.label, e))
+                if isinstance(e, (TypeError, AttributeError)) and _names_model_class(str(e)):
+                    # the interpreter rejected an operation on a *model* object (the sidecar model lacks a protocol
+                    # method the code now uses): undecided, never a violation
+                    raise OutOfSubset('%s: %s: %s (an operation the sidecar model does not support)'
+                                      % (spec.label, type(e).__name__, e))
                 outcomes['raise:' + type(e).__name__] = outcomes.get('raise:' + type(e).__name__, 0) + 1
                 env['__traceback'] = traceback.format_exc(limit=6)
                 if os.environ.get('PYVC_TB'):
